@@ -269,6 +269,14 @@ func (v *Verifier) evalSpec(env *Env, e SExpr) Val {
 				}
 			}
 			pat = " :pattern (" + strings.Join(ps, " ") + ")"
+			for _, g := range x.AltPats {
+				var gs []string
+				for _, pe := range g {
+					ts, _ := flattenVal(v.evalSpec(ne, pe))
+					gs = append(gs, ts...)
+				}
+				pat += " :pattern (" + strings.Join(gs, " ") + ")"
+			}
 		}
 		if x.Forall {
 			b := implies(and(ranges...), body)
